@@ -531,7 +531,10 @@ fn do_to_dot<W: Write>(
             else {
                 unreachable!();
             };
+            let dot_escape = |s: &str| s.replace('\\', "\\\\").replace('"', "\\\"");
+            let literal = dot_escape(&literal);
             if let Some(description) = description {
+                let description = dot_escape(&description);
                 writeln!(
                     output,
                     r#"{indentation}{node_dot_id}[label="{pos}: \"{literal}\"\n\"{description}\""];"#
@@ -551,6 +554,7 @@ fn do_to_dot<W: Write>(
             let RegexInput::Nonterminal { nonterm, .. } = input else {
                 unreachable!()
             };
+            let nonterm = nonterm.replace('\\', "\\\\").replace('"', "\\\"");
             writeln!(
                 output,
                 r#"{indentation}{node_dot_id}[label="{pos}: <{nonterm}>"];"#
